@@ -570,6 +570,44 @@ theorem C04_newer_writes_converge (recur : Node → Sid → Bytes → Node × Ou
     intro c hg ha
     exact ih (c.step recur fuel link s) (good_step_nn recur fuel link c s hg ha.1) ha.2
 
+/-! ### the other two data commands keep every entry below the clock as well -/
+
+theorem dbBelow_incValue (db : Db) (k : Bytes) (inc : Int) (op c : Nat) (h : DbBelow db c) (hop : op < c) :
+    DbBelow (db.incValue k inc op).1 c := by
+  unfold Db.incValue
+  cases Bytes.parseI32 (db.incText k) with
+  | none => exact h
+  | some cur =>
+    simp only []
+    split
+    · split
+      · exact h
+      · unfold Db.incStore
+        cases db.getValue k with
+        | none => exact dbBelow_put db c _ _ _ _ _ _ _ h hop
+        | some e => exact dbBelow_put db c _ _ _ _ _ _ _ h hop
+    · exact h
+
+theorem dbBelow_removeValue (db db' : Db) (k : Bytes) (ps : List Push) (c : Nat) (h : DbBelow db c)
+    (hr : db.removeValue k = some (db', ps)) : DbBelow db' c := by
+  unfold Db.removeValue at hr
+  split at hr
+  · cases hr
+  · simp only [Option.some.injEq, Prod.mk.injEq] at hr
+    obtain ⟨h1, _⟩ := hr
+    subst h1
+    cases hg : db.getValue k with
+    | none => exact h
+    | some e =>
+      simp only []
+      split
+      · intro k' e' hk'
+        simp only [Db.getValue, AL.get?_erase] at hk'
+        split at hk'
+        · cases hk'
+        · exact h k' e' hk'
+      · exact dbBelow_put db c _ _ _ _ _ _ _ h (h k e hg)
+
 /-! ### non-vacuity -/
 
 def c04PN : Node := { c04P with dbs := [(b!"t", Db.new b!"t" 1 .newer)] }
